@@ -24,7 +24,8 @@ ASSUMPTIONS = ["scipy.spatial.Delaunay triangulates the convex hull and find_sim
 TRUSTED = ["scipy.spatial.Delaunay / Qhull", "scipy.interpolate interpolators", "xarray containers"]
 
 PROJS = {"affine": lambda p: (lambda e, n: (p[0] * e + p[1], p[2] * n + p[3])), "shear": lambda p: (lambda e, n: (e + p[0] * n, n - p[0] * e)),
-         "cube": lambda p: (lambda e, n: (e * e * e / p[0], n))}
+         "cube": lambda p: (lambda e, n: (e * e * e / p[0], n)),
+         "cube2": lambda p: (lambda e, n: (e * e * e / p[0], n * n * n / p[0]))}
 
 
 def pairs(es, ns):
@@ -140,6 +141,13 @@ def corpus():
     es, ns = [0.0, 4.0, 0.0, 4.0, 2.0], [0.0, 0.0, 4.0, 4.0, 1.0]
     cs = [mk_mask(es, ns, [2.0, 5.0, 0.0, 1.0, 2.0, -0.5], [2.0, 5.0, 2.0, 3.0, 0.0, 2.0], [6], None, None, "corpus-square"),
           mk_mask(es, ns, None, None, None, None, ([-1.0, 1.0, 3.0, 5.0], [0.5, 2.5, 4.5]), "corpus-grid"),
+          # non-linear projections: slanted hull edges bend, so the hull must be taken of the PROJECTED points (and of nothing else)
+          mk_mask([0.0, 4.0, 0.0, 1.0, 3.0, 0.5], [0.0, 0.0, 4.0, 1.0, 0.5, 3.0], [float(x) for x in range(5) for _ in range(5)],
+                  [float(y) for _ in range(5) for y in range(5)], [25], ["cube2", [1.0]], None, "corpus-nonlinear-projection"),
+          mk_mask([-3.0, 5.0, 1.0, 0.0, 2.0], [-1.0, 0.0, 6.0, 1.0, 2.0], None, None, None, ["cube2", [8.0]],
+                  ([-3.0, -1.0, 0.0, 1.0, 2.0, 3.0, 4.0, 5.0], [-1.0, 0.0, 1.0, 2.0, 3.0, 4.0, 5.0, 6.0]), "corpus-nonlinear-projection-grid"),
+          mk_mask([-3.0, 5.0, 1.0, 0.0, 2.0], [-1.0, 0.0, 6.0, 1.0, 2.0], [-2.5, -1.5, 0.5, 1.5, 2.5, 3.5, 4.5, 0.5, 1.5, 2.5], 
+                  [-0.5, 0.5, 1.5, 2.5, 3.5, 0.5, 0.25, 4.5, 5.0, 4.0], [10], ["cube", [4.0]], None, "corpus-nonlinear-projection"),
           mk_mask([1e7 + x * 1e3 for x in es], [-1e7 + y * 1e3 for y in ns], [1e7 + 2e3, 1e7 + 5e3], [-1e7 + 2e3, -1e7 + 2e3], [2], None, None, "corpus-scale-1e7"),
           mk_pg([0.0, 1.0, 2.0, 3.0], [10.0, 20.0, 30.0], [[1.0, 2.0, 3.0, 4.0], [5.0, 6.0, 7.0, 8.0], [9.0, 10.0, 11.0, 12.5]],
                 ["affine", [2.0, 1.0, 0.5, -3.0]], "linear", False, {}, "corpus-pg-affine"),
@@ -181,6 +189,9 @@ def generate(rng, tier):
             proj = None
             if rng.random() < 0.25:
                 proj = rng.choice([["affine", [2.0, 1.0, -0.5, 3.0]], ["shear", [0.5]], ["affine", [0.25, 0.0, 4.0, -1.0]]])
+            if scale == 1.0 and offset == 0.0 and rng.random() < 0.35:
+                # a NON-LINEAR projection (exact on these dyadic coordinates): the hull is that of the PROJECTED points
+                proj = rng.choice([["cube", [4.0]], ["cube2", [1.0]], ["cube2", [8.0]]])
             nq = rng.randint(1, 10)
             if lattice:
                 qe = [offset + rng.randint(-14, 14) / 2.0 * scale for _ in range(nq)]
